@@ -34,6 +34,7 @@ integration (calc_all_g / Donnan), read-out values.
 """
 from fractions import Fraction
 
+import json
 from .. import tree as T
 from .. import ratfun as RF
 
@@ -171,6 +172,9 @@ def run(P, R, tier):
     perdl_rule(P, R)
     compunk_rule(P, R)
     ladder_rule(P, R)
+    inert_rule(P, R)
+    deadget_rule(P, R)
+    mixarea_rule(P, R)
     R.rule("C20.psi", "every potential conversion is psi = 2 la ln10 R T/F (DDL, CCM) or psi = -la ln10 R T/F (CD-MUSIC planes), matching the selected model", minimum=12)
     R.rule("C20.sigma", "every charge-density conversion is sigma = q F/(A g) or q = sigma A g/F", minimum=15)
     S = RF.Rat.sym
@@ -696,3 +700,205 @@ def ladder_rule(P, R):
                 R.ok(RULE, inst, "%d pieces tile [%s, 1]" % (len(pieces), pieces[-1][3]))
     if n < 9:
         R.anchor_missing(RULE, "only %d blocks of qromb_midpnt pieces found" % n)
+
+
+def inert_rule(P, R):
+    """"the species of each site type sum to the defined sites": for a surface related to an equilibrium phase the defined sites are
+    proportion * (moles of the phase).  While model() iterates, the amount of a phase entered with precipitate_only is split into
+    unknown::moles (what may still change) and unknown::inert_moles (set_inert_moles / unset_inert_moles): the phase's amount is
+    moles + inert_moles.  Every read of `->phase_unknown->moles` in the solver (site totals and their zero test in reset, the area of the
+    charge unknown, the MIN_RELATED_SURFACE tests of the residual and Jacobian code) must add the same unknown's inert_moles in the same sum."""
+    RULE = "C20.inert"
+    R.rule(RULE, "every read of a related surface's phase amount is phase_unknown->moles + phase_unknown->inert_moles", minimum=5)
+
+    def leaves(n, sign, out):
+        m = T.strip_casts(n)
+        if T.is_node(m) and m[0] == "Paren":
+            m = T.strip_casts(m[2])
+        if T.is_node(m) and m[0] == "Bin" and m[2] in ("+", "-"):
+            leaves(m[3], sign, out)
+            leaves(m[4], sign if m[2] == "+" else -sign, out)
+        else:
+            out.append((sign, m))
+
+    def is_field(m, name):
+        return T.is_node(m) and m[0] == "Member" and m[2] == "unknown::" + name and T.is_node(T.strip_casts(m[3])) and T.strip_casts(m[3])[0] == "Member" \
+            and T.strip_casts(m[3])[2] == "unknown::phase_unknown"
+    n = 0
+    for k, g in sorted(P.functions.items(), key=lambda kv: (kv[1]["file"], kv[1]["line"])):
+        if not g.get("body"):
+            continue
+        seen = set()
+
+        def visit(node, parent_additive):
+            nonlocal n
+            if not T.is_node(node):
+                return
+            additive = node[0] == "Bin" and node[2] in ("+", "-")
+            if additive and not parent_additive:
+                out = []
+                leaves(node, 1, out)
+                for sg, m in out:
+                    if is_field(m, "moles"):
+                        base = "".join(T.text(m[3], -40).split())
+                        seen.add(id(m))
+                        n += 1
+                        inst = "%s@%d" % (g["q"].split("::")[-1], m[1] - g["line"])
+                        if any(is_field(o, "inert_moles") and s2 == sg and "".join(T.text(o[3], -40).split()) == base for s2, o in out):
+                            R.ok(RULE, inst, "moles + inert_moles of %s" % base)
+                        else:
+                            R.violation(RULE, inst, "%s->moles is read without %s->inert_moles: for a phase entered with precipitate_only the related surface gets the sites (area) of the "
+                                        "part that changed in this step only" % (base, base), file=g["file"], line=m[1], function=g["q"])
+            if node[0] == "Member" and is_field(node, "moles") and id(node) not in seen and not parent_additive:
+                # a read outside any sum (writes are assignments to the field: skip the left side of `=`)
+                n += 1
+                R.violation(RULE, "%s@%d" % (g["q"].split("::")[-1], node[1] - g["line"]), "%s is used without inert_moles" % T.text(node), file=g["file"], line=node[1], function=g["q"])
+            for c in node[2:]:
+                if isinstance(c, list):
+                    if c and isinstance(c[0], str):
+                        visit(c, additive or (parent_additive and node[0] in ("Cast", "Paren")))
+                    else:
+                        for cc in c:
+                            if isinstance(cc, list) and cc and isinstance(cc[0], str):
+                                visit(cc, False)
+        visit(g["body"], False)
+    if n < 5:
+        R.anchor_missing(RULE, "only %d reads of phase_unknown->moles found" % n)
+
+
+def deadget_rule(P, R):
+    """update_kin_surface re-scales a saved surface that is related to a kinetic reactant.  It read the grams of the charge structure with
+    `charge_ptr->Get_grams();` - a statement - so the local stayed 0, the surface was treated as having no charge data and its charge
+    balance was zeroed: the saved surface no longer satisfied sigma = f(psi) of the state it was saved in.  A statement that calls a const
+    member function without out-parameters and drops the value is a read that was meant to be used (the sibling update_min_surface
+    assigns it).  Census over the whole program of statement-level calls of const member functions; those with an out-parameter
+    (status-returning accessors) are the accepted form."""
+    RULE = "C20.deadget"
+    R.rule(RULE, "no statement calls a const member function without out-parameters and drops its value (a getter whose result was meant to be assigned)", minimum=2)
+
+    def stmts(node):
+        if not T.is_node(node):
+            return
+        if node[0] == "Compound":
+            for st in node[2]:
+                yield st
+        if node[0] == "If":
+            for br in (node[3], node[4]):
+                if T.is_node(br) and br[0] != "Compound":
+                    yield br
+        if node[0] in ("For", "While") and T.is_node(node[-1]) and node[-1][0] != "Compound":
+            yield node[-1]
+        for c in node[2:]:
+            if isinstance(c, list):
+                if c and isinstance(c[0], str):
+                    yield from stmts(c)
+                else:
+                    for cc in c:
+                        if isinstance(cc, list) and cc and isinstance(cc[0], str):
+                            yield from stmts(cc)
+    n = 0
+    for k, g in sorted(P.functions.items(), key=lambda kv: (kv[1]["file"], kv[1]["line"])):
+        if not g.get("body"):
+            continue
+        for st in stmts(g["body"]):
+            st = T.strip_casts(st)
+            if not (T.is_node(st) and st[0] == "Call" and isinstance(st[2], dict)):
+                continue
+            c = st[2]
+            if not (c.get("const") and c.get("k") in ("method", "virtual") and c.get("ret") not in ("void", None)):
+                continue
+            n += 1
+            inst = "%s@%d:%s" % (g["q"].split("::")[-1], st[1] - g["line"], T.callee_name(st))
+            outs = [pt for pt in T.param_types(c) if (pt.endswith("*") or pt.endswith("&")) and not pt.startswith("const ")]
+            if outs:
+                R.ok(RULE, inst, "delivers through an out-parameter (%s); the dropped value is a status" % outs[0])
+            else:
+                R.violation(RULE, inst, "`%s;` calls the const member function %s and drops the %s it returns: the value was meant to be used (a local that should have received "
+                            "it keeps its initial value)" % (T.text(st)[:60], c.get("q"), c.get("ret")), file=g["file"], line=st[1], function=g["q"])
+    if n < 2:
+        R.anchor_missing(RULE, "statement-level calls of const member functions: %d found, 2 confirmed" % n)
+
+
+def mixarea_rule(P, R):
+    """sigma = q F / (A g): the area of a surface is specific_area * grams of its charge structure.  cxxSurfaceCharge::add (SURFACE_MIX, every
+    combination of surfaces) must conserve it: (specific_area * grams) after the call = specific_area * grams before + extensive *
+    addee.specific_area * addee.grams.  The statements of the function are executed symbolically (engine/ratfun.py; members of this and
+    of the addee are symbols, the branch for a non-empty sum is followed) and the identity is checked as a polynomial identity.  The same
+    for the extensive members that are plain sums (grams, charge_balance, mass_water)."""
+    from fractions import Fraction
+    RULE = "C20.mixarea"
+    R.rule(RULE, "cxxSurfaceCharge::add conserves area (specific_area * grams) and the extensive members", minimum=4)
+    f = P.one("cxxSurfaceCharge::add")
+    ext = f["pnames"][1] if len(f.get("pnames", [])) > 1 else "extensive"
+    add = f["pnames"][0]
+
+    def key(n):
+        n = T.strip_casts(n)
+        if n[0] == "Member":
+            base = T.strip_casts(n[3])
+            who = "this" if base[0] == "This" else (base[3] if base[0] == "Ref" else None)
+            if who is None:
+                return None
+            return who + "." + n[2].split("::")[-1]
+        if n[0] == "Ref" and n[2] in ("local", "param"):
+            return n[3]
+        return None
+
+    def conv(n, env):
+        n = T.strip_casts(n)
+        if n[0] == "Paren":
+            return conv(n[2], env)
+        if n[0] == "Lit":
+            return RF.Rat.const(Fraction(str(n[3]).rstrip("fFlL")))
+        k = key(n)
+        if k is not None:
+            return env.get(k, RF.Rat.sym(k))
+        if n[0] == "Bin" and n[2] in ("+", "-", "*", "/"):
+            a, b = conv(n[3], env), conv(n[4], env)
+            return a + b if n[2] == "+" else a - b if n[2] == "-" else a * b if n[2] == "*" else a / b
+        raise RF.NotRational(T.text(n)[:40])
+
+    def execute(stmts, env):
+        for st in stmts:
+            if not T.is_node(st):
+                continue
+            if st[0] == "Compound":
+                execute(st[2], env)
+            elif st[0] == "If":
+                c = T.strip_casts(st[2])
+                # `x != 0` : the generic case is the then-branch; `x == 0` (early return) : skipped
+                if T.is_node(c) and c[0] == "Bin" and c[2] == "!=":
+                    execute([st[3]], env)
+            elif st[0] == "Bin" and st[2] in ("=", "+=", "-=", "*="):
+                k = key(st[3])
+                if k is None:
+                    continue
+                try:
+                    v = conv(st[4], env)
+                except RF.NotRational:
+                    env.pop(k, None)
+                    env[k] = RF.Rat.sym(k + "'")
+                    continue
+                old = env.get(k, RF.Rat.sym(k))
+                env[k] = v if st[2] == "=" else old + v if st[2] == "+=" else old - v if st[2] == "-=" else old * v
+    env = {}
+    try:
+        execute(f["body"][2], env)
+    except (RF.NotRational, KeyError, IndexError) as e:
+        R.anchor_missing(RULE, "cxxSurfaceCharge::add not evaluable (%s)" % e)
+        return
+    S = RF.Rat.sym
+    E = S(ext)
+    after = lambda m: env.get("this." + m, S("this." + m))
+    want_area = S("this.specific_area") * S("this.grams") + E * S(add + ".specific_area") * S(add + ".grams")
+    got_area = after("specific_area") * after("grams")
+    if got_area.same(want_area):
+        R.ok(RULE, "area", "specific_area * grams is the sum of the areas")
+    else:
+        R.violation(RULE, "area", "cxxSurfaceCharge::add does not conserve the surface area: specific_area * grams after the call is %r, the sum of the parts is %r"
+                    % (got_area, want_area), file=f["file"], line=f["line"], function=f["q"])
+    for m in ("grams", "charge_balance", "mass_water"):
+        if after(m).same(S("this." + m) + E * S(add + "." + m)):
+            R.ok(RULE, m, "this + %s * addee" % ext)
+        else:
+            R.violation(RULE, m, "cxxSurfaceCharge::add: %s after the call is %r, not this.%s + %s * %s.%s" % (m, after(m), m, ext, add, m), file=f["file"], line=f["line"], function=f["q"])
